@@ -87,6 +87,9 @@ class ExprMixin:
                     return z3.And(v.z != NULL, bv.keys.len > 0)
                 raise Unsupported(f"truthiness of {kind}")
             if v.cls is not None and (self.find_method(v.cls, "__len__") or self.find_method(v.cls, "__bool__")):
+                if self.lenient:
+                    # effect obligations only: None is falsy, anything else is whatever its __len__/__bool__ says (unknown)
+                    return z3.And(v.z != NULL, z3.Bool(fresh_name("truthy")))
                 raise Unsupported(f"truthiness of {v.cls} with __len__/__bool__")
             return v.z != NULL
         if isinstance(v, (VFunc, VClass, VModule)):
@@ -230,7 +233,16 @@ class ExprMixin:
 
     def ev_Dict(self, node, p):
         if node.keys:
-            raise Unsupported("non-empty dict literal")
+            if not self.lenient:
+                raise Unsupported("non-empty dict literal")
+            # lenient mode (effect obligations): a dict display with entries / unpackings is a NEW dictionary whose contents
+            # are not modelled; its parts are evaluated for their effects
+            def fin(q, vs):
+                r = self.new_object(q, "dict[?]", "dict")
+                q.ghost["$opaque_boxes"] = q.ghost.get("$opaque_boxes", frozenset()) | {str(r.z)}
+                return [(q, r)]
+            parts = [k for k in node.keys if k is not None] + list(node.values)
+            return self.bind(self.ev_list(parts, p), fin)
         r = self.new_object(p, "dict[?]", "dict")
         return [(p, r)]
 
